@@ -26,7 +26,13 @@ def main():
         prop = mid.split("-")[0]
         patch = VERIF / "seeded" / mid / "patch.diff"
         ap = sh("git", "-C", REPO, "apply", str(patch))
-        rec = {"applies": ap.returncode == 0, "checks": {}}
+        ported = VERIF / "seeded" / mid / "patch_on_fixed_tree.diff"
+        used = "patch.diff"
+        if ap.returncode != 0 and ported.exists():
+            # the change was written against 85d519a; the same change re-based onto the tree with the fix commits
+            ap = sh("git", "-C", REPO, "apply", str(ported))
+            used = "patch_on_fixed_tree.diff"
+        rec = {"applies": ap.returncode == 0, "patch_used": used, "checks": {}}
         if ap.returncode == 0:
             try:
                 for c in [prop] + ALSO.get(mid, []):
